@@ -48,7 +48,7 @@ def wall(tier):
     return 90 if tier == "quick" else 1500
 
 
-def gen(seed: int, i: int, tier: str) -> dict:
+def _gen(seed: int, i: int, tier: str) -> dict:
     rng = random.Random(f"C04:{seed}:{i}")
     nshort = G.short_history_count(len(ALPHABET), 3)
     if tier == "thorough" and i < 5 * nshort:
@@ -94,6 +94,11 @@ def gen(seed: int, i: int, tier: str) -> dict:
         cfg = {"pin": None}
         ops.insert(0, ["line", f"0;255;0;0;18;{proto}\n"])
     return {"cfg": cfg, "kind": "long", "ops": ops, "link": counts}
+
+
+def gen(seed: int, i: int, tier: str) -> dict:
+    scn = _gen(seed, i, tier)
+    return G.maybe_tcp(random.Random(f"C04link:{seed}:{i}"), scn)
 
 
 def run(scn):
